@@ -40,7 +40,11 @@ static void fill_scenario(cs::Src& s, cs::Ctx& ctx, int kind) {
     bool r;
     switch (kind) {
       case 0: r = doc.add((int)(i & 0x7FFF)); break;
+#if ARDUINOJSON_USE_LONG_LONG
       case 1: r = doc.add((uint64_t)0x100000000ull + i); break;  // 64-bit: value slot + extension slot
+#else
+      case 1: r = doc.add(1.1 + (double)i); break;  // 32-bit integers: a double that no float represents takes the extension slot
+#endif
       default: {
         keys.push_back("k" + std::to_string(i));
         r = doc[arena.keep(keys.back())].set((int)i);  // linked key: key slot + value slot
@@ -62,7 +66,11 @@ static void fill_scenario(cs::Src& s, cs::Ctx& ctx, int kind) {
   expect_clean(ctx, doc, ledger, what + " at the limit", kind == 2);
   // the values are still the ones that were inserted
   if (kind == 0 && (doc[0].as<int>() != 0 || doc[ok - 1].as<int>() != (int)((ok - 1) & 0x7FFF))) ctx.fail("document-not-intact", what + ": element values changed");
+#if ARDUINOJSON_USE_LONG_LONG
   if (kind == 1 && doc[ok - 1].as<uint64_t>() != 0x100000000ull + ok - 1) ctx.fail("document-not-intact", what + ": 64-bit element values changed");
+#else
+  if (kind == 1 && doc[ok - 1].as<double>() != 1.1 + (double)(ok - 1)) ctx.fail("document-not-intact", what + ": 64-bit element values changed");
+#endif
   if (kind == 2 && doc[keys[ok - 1]].as<int>() != (int)(ok - 1)) ctx.fail("document-not-intact", what + ": member values changed");
   // usable again after removals
   size_t k = 1 + (size_t)s.below(10);
@@ -72,11 +80,19 @@ static void fill_scenario(cs::Src& s, cs::Ctx& ctx, int kind) {
   }
   if (doc.size() != ok - k) ctx.fail("remove-at-limit", what + ": size() after removing " + std::to_string(k) + " values is " + std::to_string(doc.size()));
   for (size_t i = 0; i < k; i++) {
+#if ARDUINOJSON_USE_LONG_LONG
     bool r = kind == 0 ? doc.add(7) : kind == 1 ? doc.add((int64_t)-0x100000000ll - (int64_t)i) : doc[arena.keep("again" + std::to_string(i))].set(1.5f);
+#else
+    bool r = kind == 0 ? doc.add(7) : kind == 1 ? doc.add(-1.1 - (double)i) : doc[arena.keep("again" + std::to_string(i))].set(1.5f);
+#endif
     if (!r) ctx.fail("not-usable-after-removal", what + ": insertion " + std::to_string(i + 1) + " of " + std::to_string(k) + " failed after " + std::to_string(k) + " values were removed");
   }
   if (doc.size() != ok) ctx.fail("document-not-intact", what + ": size() after refill");
+#if ARDUINOJSON_USE_LONG_LONG
   bool more = kind == 0 ? doc.add(1) : kind == 1 ? doc.add((uint64_t)1 << 40) : doc["onemore"].set(1);
+#else
+  bool more = kind == 0 ? doc.add(1) : kind == 1 ? doc.add(2.2) : doc["onemore"].set(1);
+#endif
   if (more && ok * per + per > MAX_SLOTS) ctx.fail("limit-position", what + ": an insertion beyond the limit succeeded after the refill");
   expect_clean(ctx, doc, ledger, what + " after refill", true);
   // cleared: works normally again
@@ -155,6 +171,9 @@ static void string_scenario(cs::Src& s, cs::Ctx& ctx, int via) {
     }
     if (doc["keep"].as<int>() != 42) ctx.fail("document-not-intact", what + ": another member changed");
     expect_clean(ctx, doc, ledger, what, true);
+    // a refused string leaves nothing behind: every block is back once the documents are emptied
+    doc.clear();
+    if (ledger.live_blocks() != 0) ctx.fail("leak-after-clear", what + ": " + std::to_string(ledger.live_blocks()) + " blocks (" + std::to_string(ledger.live_bytes) + " bytes) live after clear()");
     ctx.label("string-limit-hit");
   }
 }
